@@ -16,6 +16,17 @@
     C08_delay_encoding, C08_no_overflow, C08_no_indeterminate_byte, C08_eof_offset,
     C08_stream_parses, C08_sample_total_header, C08_gd3_offset, C08_loop_consistent,
     C08_gd3_eleven_strings, C08_clocks_declared, C08_pcm_stream_in_block.
+
+  GD3 text (model decoder `utf8ToUtf16` against the reader-side `utf8OfUnits`, Proofs/Utf8.lean):
+    C08_utf8_decode_encode, C08_utf8_valid_tag, C08_utf8_decoder_scalars, C08_gd3_renders_tag.
+
+  Whole songs (`Platform::vgm_export` + `MD_Driver` + `get_tags`, Model/MdDriver.lean incl. PCM
+  instruments; helper lemmas Proofs/MdExport.lean, Proofs/VgmPcm.lean, Proofs/VgmTagErr.lean):
+    C08_invalid_tag_range_error, C08_md_export_hyps (every run of the exporter model satisfies the
+    side conditions `ExportHyps` of the writer-level theorems, incl. clock pokes and PCM windows),
+    C08_full_partial (the property for every song; extra hypotheses: allocator invariant of the
+    wave bank, file < 4 GiB), C08_pcm_windows_are_samples, C08_pcm_offset_counterexample (why the
+    allocator invariant is needed: known finding D11), `def C08_full_statement`.
 -/
 import Ctrmml.Proofs.VgmInv
 import Ctrmml.Proofs.Utf8
@@ -400,7 +411,8 @@ def TagsRendered (strs : List (List Nat)) (tags : Tags) : Prop :=
     validUtf8 (cstr t) = true → rendersTag gd3MaxUnits s (cstr t) = true
 
 open MdDriver in
-/-- **C08, the full statement over the model, for every song.**  Let `d` be instrument data
+/-- **C08 over the model, for every song** (partial: two extra hypotheses w.r.t.
+`C08_full_statement`, named after the statement).  Let `d` be instrument data
 whose wave bank satisfies the allocator invariant (`Wave.Inv`: C14 proves it for every bank
 built from a new bank by admissible additions), `song` any song, `m` its tag map, `st` the wall
 clock / build stamp strings; `tags = finalTags m st` are the eleven strings `get_tags` +
@@ -417,8 +429,13 @@ clock / build stamp strings; `tags = finalTags m st` are the eleven strings `get
     SN76489 and YM2612 — the only chips written to — declared, every PCM stream start inside the
     data block, and the GD3 block splits into exactly eleven terminated strings: the decoded
     tags cut at 256 units, each of which renders its tag (`rendersTag`: re-encoded to UTF-8 it IS
-    the tag, or a 256-unit prefix of it) whenever the tag is well-formed UTF-8. -/
-theorem C08_full (d : Data) (song : Song) (m : TagMap) (st : Stamps) (rs : List Alloc.Win)
+    the tag, or a 256-unit prefix of it) whenever the tag is well-formed UTF-8.
+Extra hypotheses w.r.t. `C08_full_statement`: (i) `Wave.Inv d.bank rs` in place of "the bank was
+built by `add_sample(Tag)` calls on a new bank" — C14 proves `Inv` for every such history of
+ADMISSIBLE additions; without admissibility (an `offset=` on freshly placed data, known finding
+D11) the PCM clause is false, `C08_pcm_offset_counterexample`; (ii) `f.length < 2^32` for clause 3
+(the offset fields are 32 bits wide; no bound on the number of writes of a song is proved). -/
+theorem C08_full_partial (d : Data) (song : Song) (m : TagMap) (st : Stamps) (rs : List Alloc.Win)
     (hbank : Wave.Inv d.bank rs) :
     (∀ e, MdDriver.exportOps d song (finalTags m st) = .error e → exportSong d song m st = .error e) ∧
     (∀ ops, MdDriver.exportOps d song (finalTags m st) = .ok ops →
@@ -491,6 +508,69 @@ theorem C08_full (d : Data) (song : Song) (m : TagMap) (st : Stamps) (rs : List 
         exact (C08_gd3_renders_tag t hv).2
       · rw [k2 h] at hf; cases hf
 
+/-! ### Non-vacuity of the song-level theorems: a PCM instrument on FM channel 6 -/
+open MdDriver in
+/-- wave bank of 64 bytes holding one 4-byte sample (8000 Hz) -/
+def exPcmBank : Wave.Bank :=
+  match Wave.addSample (Wave.Bank.new 64 0) ⟨0, 0, 4, 0, 0, 8000, 0, 0⟩ [1, 2, 3, 4] with
+  | .ok (b, _) => b
+  | .error _ => Wave.Bank.new 0 0
+
+open MdDriver in
+def exPcmData : Data :=
+  { ins := [(30, { type := Tables.mdsdrv_INS_PCM, data := [], transpose := 0 })], bank := exPcmBank, waveMap := [(30, 0)] }
+
+/-- `F @30 c r`: instrument 30, a note, a rest -/
+def exPcmSong : Song :=
+  { tracks := [(5, [⟨Tables.ev_INS, 30, 0, 0⟩, ⟨Tables.ev_NOTE, 40, 6, 2⟩, ⟨Tables.ev_REST, 0, 0, 4⟩])] }
+
+/-- the hypothesis of `C08_full_partial` / `C08_pcm_windows_are_samples` holds for this bank (C14's step lemma) -/
+theorem C08_example_pcm_bank : ∃ rs, Wave.Inv exPcmData.bank rs :=
+  ⟨_, (Wave.addSample_step (Wave.Bank.new 64 0) [] ⟨0, 0, 4, 0, 0, 8000, 0, 0⟩ [1, 2, 3, 4] exPcmBank 0
+    (Wave.inv_new 64 0 (by decide) (by decide) (by decide)) ⟨by decide, by decide, fun _ => rfl⟩ rfl).inv⟩
+
+open MdDriver in
+/-- the driver part completes and the operation list really holds the data block, a stream
+start over the sample's window and the stop that follows it -/
+theorem C08_example_pcm_ops : (match MdDriver.exportOps exPcmData exPcmSong (finalTags [("#title", [[0x41]])] ⟨[0x32], [0x6e]⟩) with
+    | .ok ops => (ops.any fun o => match o with | .dacStart 0 0 4 8000 => true | _ => false) &&
+                 (ops.any fun o => match o with | .dacStop 0 => true | _ => false) &&
+                 (ops.any fun o => match o with | .datablock 0 [1, 2, 3, 4] 64 0 0 => true | _ => false)
+    | .error _ => false) = true := by decide +kernel
+
+open MdDriver in
+/-- hence (`C08_full_partial`, clause 2) the whole export of this song returns a file … -/
+example : ∃ f, exportSong exPcmData exPcmSong [("#title", [[0x41]])] ⟨[0x32], [0x6e]⟩ = .ok f := by
+  obtain ⟨rs, hinv⟩ := C08_example_pcm_bank
+  have hok := C08_example_pcm_ops
+  cases hops : MdDriver.exportOps exPcmData exPcmSong (finalTags [("#title", [[0x41]])] ⟨[0x32], [0x6e]⟩) with
+  | error e => rw [hops] at hok; cases hok
+  | ok ops =>
+    refine ((C08_full_partial exPcmData exPcmSong _ _ rs hinv).2.1 ops hops).1 ?_
+    have e : (finalTags [("#title", [[0x41]])] ⟨[0x32], [0x6e]⟩).toList = [[0x41], [], [], [], [], [], [], [], [0x32], [], [0x6e]] := by
+      decide +kernel
+    rw [e]
+    intro t ht
+    simp at ht
+    rcases ht with rfl | rfl | rfl | rfl | rfl <;> exact ⟨_, rfl⟩
+
+open MdDriver in
+/-- … and with an undecodable `#title` it is an input error -/
+example : exportSong exPcmData exPcmSong [("#title", [[0xff]])] ⟨[0x32], [0x6e]⟩ = .error .input := by
+  obtain ⟨rs, hinv⟩ := C08_example_pcm_bank
+  have hok : (match MdDriver.exportOps exPcmData exPcmSong (finalTags [("#title", [[0xff]])] ⟨[0x32], [0x6e]⟩) with
+      | .ok _ => true | .error _ => false) = true := by decide +kernel
+  cases hops : MdDriver.exportOps exPcmData exPcmSong (finalTags [("#title", [[0xff]])] ⟨[0x32], [0x6e]⟩) with
+  | error e => rw [hops] at hok; cases hok
+  | ok ops =>
+    refine ((C08_full_partial exPcmData exPcmSong _ _ rs hinv).2.1 ops hops).2 ⟨[0xff], ?_, ?_⟩
+    · have e : (finalTags [("#title", [[0xff]])] ⟨[0x32], [0x6e]⟩).toList = [[0xff], [], [], [], [], [], [], [], [0x32], [], [0x6e]] := by
+        decide +kernel
+      rw [e]; simp
+    · intro ⟨us, h⟩
+      have : utf8ToUtf16 (cstr [0xff]) = .error .rangeError := rfl
+      rw [this] at h; cases h
+
 open MdDriver in
 /-- pcm_windows_are_samples: in every file the export returns, the data bank a reader assembles
 is exactly the block `play_song` wrote (the used part of the wave rom), and every stream-start
@@ -552,5 +632,63 @@ theorem C08_pcm_windows_are_samples (d : Data) (song : Song) (tags : Tags) (f : 
     obtain ⟨ins, _, hidx⟩ := hs
     refine ⟨s, ⟨ins, ‹_›, hidx⟩, ?_⟩
     exact window_in_block d hb s (List.mem_of_getElem? hidx)
+
+/-! ### The full statement and why its extra hypothesis is needed -/
+
+/-- wave banks `MDSDRV_Data::read_song` can build: `add_sample(Tag)` calls on the new 2 MiB bank -/
+inductive BankBuilt : Wave.Bank → Prop
+  | new : BankBuilt (Wave.Bank.new Tables.mds_dataWaveRom 0)
+  | add {b b' : Wave.Bank} (file : Option Bytes) (tag : List String) (idx : Nat) :
+      BankBuilt b → Wave.addSampleTag b file tag = .ok (b', idx) → BankBuilt b'
+
+open MdDriver in
+/-- The full statement of C08 over the model: `C08_full_partial` for every instrument data whose
+wave bank `read_song` can build (no allocator invariant assumed) and without the 4 GiB bound.
+NOT a theorem: with an `offset=` argument on freshly placed data (D11) `add_sample` hands out a
+window that runs past the stored bytes, and the stream start of `key_on_pcm` then addresses bytes
+outside the data block (`C08_pcm_offset_counterexample`; replayed on the real code by the corpus
+case `c08song … @30=pcm,a.wav,offset=4`, known finding `d11:offset-window`). -/
+def C08_full_statement : Prop :=
+  ∀ (d : Data) (song : Song) (m : TagMap) (st : Stamps), BankBuilt d.bank →
+    (∀ e, MdDriver.exportOps d song (finalTags m st) = .error e → exportSong d song m st = .error e) ∧
+    (∀ ops, MdDriver.exportOps d song (finalTags m st) = .ok ops →
+      ((∀ t ∈ (finalTags m st).toList, Decodable t) → ∃ f, exportSong d song m st = .ok f) ∧
+      ((∃ t ∈ (finalTags m st).toList, ¬ Decodable t) → exportSong d song m st = .error .input)) ∧
+    (∀ f, exportSong d song m st = .ok f →
+      dataStart f = 0x100 ∧ WellFormed f ((finalTags m st).toList.map gd3Units) ∧
+      TagsRendered ((finalTags m st).toList.map gd3Units) (finalTags m st))
+
+open MdDriver in
+/-- D11 in a bank of 32 bytes: a 16-byte sample added with start offset 4 (what `offset=4` makes
+of it) is stored as 12 bytes; its header says position 0, start 4, size 12 -/
+def exD11Data : Data :=
+  { ins := [(30, { type := Tables.mdsdrv_INS_PCM, data := [], transpose := 0 })],
+    bank := (match Wave.addSample (Wave.Bank.new 32 0) ⟨0, 4, 12, 0, 0, 8000, 0, 0⟩
+        [0x10, 0x11, 0x12, 0x13, 0x14, 0x15, 0x16, 0x17, 0x18, 0x19, 0x1a, 0x1b, 0x1c, 0x1d, 0x1e, 0x1f] with
+      | .ok (b, _) => b
+      | .error _ => Wave.Bank.new 0 0),
+    waveMap := [(30, 0)] }
+
+open MdDriver in
+/-- **Counterexample to the PCM clause without the allocator invariant (known finding D11).**
+For `exD11Data` the data block `play_song` writes holds 12 bytes, the export of `F @30 c r`
+completes, and its operation list contains `dac_start(0, 4, 12, 8000)`: the stream start
+addresses bytes 4..16 of a 12-byte bank, so the writer-level PCM condition `xsPcm` fails for the
+exporter sequence and `BankOK` does not hold.  Replayed on the real code by the corpus. -/
+theorem C08_pcm_offset_counterexample :
+    used exD11Data = 12 ∧ ¬ BankOK exD11Data ∧
+    (match MdDriver.exportOps exD11Data exPcmSong exTags with
+     | .ok ops => (ops.any fun o => match o with | .dacStart 0 4 12 8000 => true | _ => false) &&
+                  (ops.any fun o => match o with
+                    | .datablock 0 [0x10, 0x11, 0x12, 0x13, 0x14, 0x15, 0x16, 0x17, 0x18, 0x19, 0x1a, 0x1b] 32 0 0 => true
+                    | _ => false)
+     | .error _ => false) = true ∧
+    xsPcm 0 [XOp.datablock 0 (pcmBlock exD11Data) 32 0, XOp.dacSetup 0 2 0 0x2a 0, XOp.dacStart 0 4 12 8000] = false := by
+  refine ⟨by decide +kernel, ?_, by decide +kernel, by decide +kernel⟩
+  intro hb
+  have h := hb.windows ⟨0, 4, 12, 0, 0, 8000, 0, 0⟩ (by decide +kernel)
+  have hu : used exD11Data = 12 := by decide +kernel
+  rw [hu] at h
+  exact absurd h (by decide)
 
 end Ctrmml.Vgm
